@@ -13,18 +13,19 @@ UNITS = []
 
 
 class Unit:
-    def __init__(self, name, fn, props, functions=(), debug_modes=(True,), note=''):
+    def __init__(self, name, fn, props, functions=(), debug_modes=(True,), note='', thorough_only=False):
         self.name = name
         self.fn = fn
         self.props = tuple(props)
         self.functions = tuple(functions)     # qualnames of real functions this unit puts under contract
         self.debug_modes = debug_modes
         self.note = note
+        self.thorough_only = thorough_only
 
 
-def unit(name, props, functions=(), debug_modes=(True,), note=''):
+def unit(name, props, functions=(), debug_modes=(True,), note='', thorough_only=False):
     def deco(fn):
-        UNITS.append(Unit(name, fn, props, functions, debug_modes, note))
+        UNITS.append(Unit(name, fn, props, functions, debug_modes, note, thorough_only))
         return fn
     return deco
 
@@ -88,22 +89,32 @@ def run_unit(E, u, debug_flag=True):
 
 
 def _abstract_lambdas(fs):
-    """replace every Lambda term by a fresh array constant (weaker formula: unsat carries over, sat is a candidate)"""
+    """replace every Lambda term by a fresh array constant (weaker formula: unsat carries over, sat is a candidate).
+    Returns None when there is no Lambda at all.  DAG-memoised."""
     cache = {}
+    memo = {}
     cnt = [0]
 
     def walk(t):
+        k = t.get_id()
+        if k in memo:
+            return memo[k]
         if z3.is_quantifier(t) and t.is_lambda():
-            key = t.get_id()
-            if key not in cache:
+            if k not in cache:
                 cnt[0] += 1
-                cache[key] = (z3.Const('λabs%d' % cnt[0], t.sort()), t)
-            return cache[key][0]
-        if z3.is_app(t) and t.num_args() > 0:
+                cache[k] = (z3.Const('λabs%d' % cnt[0], t.sort()), t)
+            r = cache[k][0]
+        elif z3.is_app(t) and t.num_args() > 0:
             kids = [walk(c) for c in t.children()]
-            return t.decl()(*kids)
-        return t
-    return [walk(f) for f in fs]
+            r = t.decl()(*kids)
+        else:
+            r = t
+        memo[k] = r
+        return r
+    out = [walk(f) for f in fs]
+    if not cache:
+        return None
+    return out
 
 
 def concretize(m, v, depth=0):
@@ -161,6 +172,8 @@ def check_ob(ob, timeout_ms=20000, seed=0):
         ob.note = s.reason_unknown()
         try:
             fs = _abstract_lambdas(list(ob.pc) + [z3.Not(ob.goal)])
+            if fs is None:
+                raise z3.Z3Exception('no lambda to abstract')
             s2 = z3.Solver()
             s2.set('timeout', timeout_ms)
             s2.add(*fs)
